@@ -1,6 +1,6 @@
 """C20: degree helpers: angle_to_radians exact-form / NaN domain for all integral carriers; integral and fixed_t carriers of
-the same degree value give the same sin_angle/cos_angle/tan_angle (decided). The accuracy of the 721 integer degree values is decided by constant propagation;
-the float carrier's agreement is not decided."""
+the same degree value give the same sin_angle/cos_angle/tan_angle; the accuracy of the 721 integer degree values by constant
+propagation; the float carrier by program equivalence with fixed_t(v) plus the 721 conversions: every clause decided."""
 from fractions import Fraction
 from . import common, lib, realmath as R
 from .lib import M, E, sym
@@ -11,6 +11,8 @@ from spec import entry as ENT
 EXTRA = [E("w_phi", [], "fx", "return phi.v;")]
 for f in ("sin_angle", "cos_angle", "tan_angle"):
     EXTRA.append(E("w_%s_fxi" % f, ["i32"], "fx", "return %s(as_fixed(static_cast<int64_t>(a) * 65536)).v;" % f))
+    EXTRA.append(E("w_%s_fxf32" % f, ["f32"], "fx", "return %s(fixed_t(a)).v;" % f))
+EXTRA.append(E("w_ctor_if32", ["i32"], "fx", "return fixed_t(static_cast<float>(a)).v;"))
 
 
 def n_regions(t, lo, hi):
@@ -83,6 +85,33 @@ def run(tier, seed):
                     ra = ctx.run("w_%s_%s" % (f, t), [("i", lo, hi)])
                     rb = ctx.run("w_%s_fxi" % f, [("i", lo, hi)])
                     lib.check_equiv(V, ra, rb, "%s(%s d) == %s(fixed_t d) for |d| <= 360" % (f, t, f), site=f)
+            # float carrier: (A) f(float v) is the same program as f(fixed_t(v)) for every float v (summary equivalence), and
+            # (B) fixed_t(float(d)) == 65536 d for each of the 721 integers |d| <= 360 (constant propagation through the float
+            # conversion, exact rounding of the singleton intervals); f(fixed_t carrying d) is the reference of the loop above
+            from fxai import pipeline as P
+            for f in ("sin_angle", "cos_angle", "tan_angle"):
+                ra = ctx.run("w_%s_f32" % f)
+                rb = ctx.run("w_%s_fxf32" % f)
+                if len(ra.paths) < 5:
+                    V.broke("w_%s_f32 [%s]: only %d paths" % (f, cfg, len(ra.paths)))
+                lib.check_equiv(V, ra, rb, "%s(float v) == %s(fixed_t(v))" % (f, f), site=f)
+            rc = ctx.run("w_ctor_if32", [("i", -360, 360)])
+            nb = 0
+            for d in range(-360, 361):
+                rs = rc.an.run(P.init_state(rc.an.fn, [("i", d, d)]))
+                vals = set(lib.ret_rng(q) for q in rs.paths)
+                ok = vals == {(65536 * d, 65536 * d)} and not rs.alarms
+                V.oblige(ok)
+                if not ok:
+                    nb += 1
+                    out = rc.conc((d,))
+                    if out != ("ret", 65536 * d):
+                        V.violation("float carrier holds the same degree value", "floating_point_to_fixed",
+                                    "fixed_t(float(%d)) [%s] %s, not raw %d: sin_angle/cos_angle/tan_angle of the float differ from the integer carrier" % (
+                                        d, cfg, lib.out_str(out), 65536 * d), lib.rp(rc, (d,), "float carrier"))
+                    elif nb <= 3:
+                        V.inconc("w_ctor_if32 [%s]: fixed_t(float(%d)) not decided by constant propagation (%s)" % (cfg, d, sorted(vals)[:2]))
+            info[cfg]["float_carrier_degrees"] = 721 - nb
         except Broken as e:
             V.broke("%s: %s" % (cfg, e))
     expl = ("DECIDED: angle_to_radians<T> for the 8 integral carriers: on the box 0 <= d <= 360 (d the mathematical operand value) the returned "
@@ -92,9 +121,12 @@ def run(tier, seed):
             "same d as a fixed_t (summary equivalence), so integer and fixed_t arguments give the same result. Accuracy: the 721 integer "
             "degrees (int32 carrier; the other integral carriers and fixed_t are equal to it) form a finite set and are decided one by one by "
             "constant propagation against the interval oracle: sin_angle/cos_angle within the C09 bound + 3 ulp, tan_angle within "
-            "5 ulp (1+tan^2) (odd multiples of 90 degrees excluded: pole). NOT DECIDED: the float carrier's agreement ('the float holds an "
-            "integer' is not a box).")
-    return V.finish("other", expl, "./fx check C20 --tier %s" % tier, extra={"configs": configs, "constants": info})
+            "5 ulp (1+tan^2) (odd multiples of 90 degrees excluded: pole). Float carrier: f(float v) and f(fixed_t(v)) are the same program for every "
+            "float v (summary equivalence: the mixed operator converts first), and fixed_t(float(d)) == 65536 d for each of the 721 integers "
+            "|d| <= 360 (constant propagation with exact rounding of the float conversion and of v*65536 +- 0.5), so the float carrier agrees "
+            "with the fixed_t and integral carriers (sin_angle(double) does not compile: not an input the functions are defined on). "
+            "Every clause of C20 is decided.")
+    return V.finish("proof", expl, "./fx check C20 --tier %s" % tier, extra={"configs": configs, "constants": info})
 
 
 def degree_accuracy(V, ctx, cfg, phi):
